@@ -58,7 +58,21 @@ def _one(prop, tier):
     ev = os.path.join(evdir, f"{prop}.json")
     from .selftest import selftest
 
-    return run_property(prop, tier, mod.rules, ev, selftest)
+    def rules(ctx):
+        mod.rules(ctx)
+        # generic parameter-flow rule over the files the property is anchored in (properties.jsonl)
+        from .rules.common_params import param_used
+        files = []
+        with open(os.path.join(VERIF, "properties.jsonl")) as fh:
+            for line in fh:
+                if line.strip():
+                    p = json.loads(line)
+                    if p.get("id") == prop:
+                        files = p.get("anchors", {}).get("files", [])
+        if files:
+            param_used(ctx, f"{prop}.param-used", files)
+
+    return run_property(prop, tier, rules, ev, selftest)
 
 
 if __name__ == "__main__":
